@@ -33,15 +33,15 @@ func TestVerifC07(t *testing.T) {
 		}, "Initial and Handshake spaces"),
 		// application data: arrival orders x ack-eliciting x forget-below x clock x ACK retrieval
 		c07HandlerPart("appdata", func(e explore.Env) *c07Cfg {
-			return &c07Cfg{U: [3]int{0, 0, c07Pick(e, 6, 7)}, ecn: none, forget: true, ticks: true}
+			return &c07Cfg{U: [3]int{0, 0, c07Pick(e, 6, 7)}, ecn: none, forget: true, forgetOld: e.Thorough(), ticks: true}
 		}, "application-data space"),
 		// application data with ECN marks and 0-RTT packets
 		c07HandlerPart("appdata-ecn-0rtt", func(e explore.Env) *c07Cfg {
-			return &c07Cfg{U: [3]int{0, 0, c07Pick(e, 3, 4)}, ecn: []protocol.ECN{protocol.ECNNon, protocol.ECT0, protocol.ECNCE}, zeroRTT: true, forget: true, dishonest: true, ticks: true}
+			return &c07Cfg{U: [3]int{0, 0, c07Pick(e, 3, 4)}, ecn: []protocol.ECN{protocol.ECNNon, protocol.ECT0, protocol.ECNCE}, zeroRTT: true, forget: true, forgetOld: true, dishonest: true, ticks: true}
 		}, "application-data space with ECN marks and 0-RTT"),
 		// all three spaces together (dispatch between the trackers)
 		c07HandlerPart("three-spaces", func(e explore.Env) *c07Cfg {
-			return &c07Cfg{U: [3]int{1, 1, c07Pick(e, 3, 4)}, ecn: none, forget: true, drops: true, ticks: true}
+			return &c07Cfg{U: [3]int{1, 1, c07Pick(e, 3, 4)}, ecn: none, forget: true, forgetOld: true, drops: true, ticks: true}
 		}, "all three spaces"),
 		c07PrunePart("prune"),
 	}, func(msg string) { t.Fatal(msg) })
